@@ -77,6 +77,13 @@ def jack_oracle(spec):
 @st.composite
 def boot_case(draw, tier):
     c = draw(single_chain(tier, nmax=24 if tier == 'quick' else 60))
+    if draw(st.integers(0, 11)) == 0:
+        # a long chain with a table that draws single configurations hundreds of times ("any table at all")
+        n = draw(st.integers(256, 300))
+        c = {'name': c['name'], 'idl': list(range(3, 3 + n)), 'form': 'range', 'data': draw(gen.recipe(n, kinds=('white', 'ar1'), sigma=gen.fl(0.1, 2.0)))}
+        j = draw(st.integers(0, n - 1))
+        table = [[j] * n, [j] * (n - 1) + [draw(st.integers(0, n - 1))], [draw(st.integers(0, n - 1)) for _ in range(n)]][:draw(st.integers(1, 3))]
+        return {'chain': c, 'table': table, 'kind': 'any'}
     n = len(c['idl'])
     kind = draw(st.sampled_from(['any', 'any', 'fullrank', 'few']))
     if kind == 'few':
@@ -128,7 +135,12 @@ def boot_oracle(spec):
         cond = float(np.linalg.cond(proj))
         if cond > 1e6:
             raise Skip('ill-conditioned table')
+        b_before, t_before = b.copy(), table.copy()
         back = pe.import_bootstrap(b, c['name'], table)
+        require(np.array_equal(b, b_before) and np.array_equal(table, t_before), 'import_bootstrap modified the arrays it was given')
+        again = pe.import_bootstrap(b, c['name'], table)
+        require(np.array_equal(np.asarray(again.deltas[c['name']]), np.asarray(back.deltas[c['name']])) and again.value == back.value,
+                'importing the same bootstrap samples twice gives different observables')
         require(abs(float(back.value) - float(np.mean(x))) <= 1e-12 * scale, 'import_bootstrap did not restore the central value')
         rec = np.asarray(back.deltas[c['name']]) + back.r_values[c['name']]
         require(rec.shape == x.shape and np.all(np.abs(rec - x) <= 1e-10 * cond * scale), 'import_bootstrap did not restore the Monte-Carlo samples',
